@@ -17,7 +17,8 @@ LEVEL_NOTE = ("Coq kernel; extraction; the dotReader state machine is transcribe
 DESIGN_REF = "DESIGN.md §4 C02"
 RULE = ("bodies from a grammar of hostile lines (leading/lone dots, NUL, 8-bit, bare CR at start/middle/end, empty lines, random bytes, "
         "repeated runs up to 200 bytes), long-line cases of 4095..300000 bytes, raw wire encodings with bare-LF line ends and LF-only "
-        "terminators; multi: one transaction with 2-4 recipients (distinct mailboxes, the same mailbox twice), EVERY stored copy read back "
+        "terminators; seq: 2-4 transactions on one connection to one mailbox, later bodies not longer than earlier ones, EVERY message read back through all four interfaces "
+        "after the last one was stored (memory store with and without its size limit, with a cap, file store); multi: one transaction with 2-4 recipients (distinct mailboxes, the same mailbox twice), EVERY stored copy read back "
         "through all four interfaces; asmsrc: the assembled server (FullAssembly + Services.Start in a child process), delivery over the real SMTP port, "
         "reads over the real HTTP listener with Go's default client (gzip offered) and the real POP3 port, stored sizes around multiples of 32 KiB; distinct = distinct input line; non-trivial = the message was stored and has a body beyond the trace headers")
 TRUSTED = ["net/textproto dotReader transcribed by hand into Model/Dot.v", "httptest around the real router for REST and web-UI reads"]
@@ -28,6 +29,8 @@ NOT_PROVED = []
 def nontrivial(kind, ins, outs):
     if kind == "multi":
         return len(outs) >= 3 and outs[2].startswith("1:") and outs[1] != "-"
+    if kind == "seq":
+        return len(outs) >= 3 and "1" in outs[2].split(":")[0] and outs[1] != "-"
     return len(outs) >= 9 and outs[8].startswith("1:") and ins[1] != "-"
 
 
@@ -38,6 +41,15 @@ def shrink_candidates(inp):
         for i in range(len(rc)):
             if len(rc) > 1:
                 yield " ".join([parts[0], parts[1], ",".join(rc[:i] + rc[i + 1:]), parts[3]])
+        if parts[3] != "-":
+            ls = parts[3].split(",")
+            for i in range(len(ls)):
+                yield " ".join([parts[0], parts[1], parts[2], ",".join(ls[:i] + ls[i + 1:]) or "-"])
+        return
+    if parts[0] == "seq":
+        k = int(parts[2])
+        if k > 2:
+            yield " ".join([parts[0], parts[1], str(k - 1), parts[3]])
         if parts[3] != "-":
             ls = parts[3].split(",")
             for i in range(len(ls)):
